@@ -1,3 +1,129 @@
-(* C14 — placeholder while the end-to-end pipeline is brought up *)
+(* C14 — a standby promotes itself only after sustained partner failure.
+   Statements only; proofs are in Proofs/FailoverProofs.v.  Every theorem is closed by [exact] and
+   followed by Print Assumptions.
+
+   Reading guide.  [monitor m c s ss evs] (Model/FailoverSpec.v) runs the Model of
+   pkg/ha/failover.go on the event list [evs] and feeds each (event, observation) to the trace monitor
+   — the same monitor the harness runs on traces of the real controller — restricted to the clauses
+   selected by [m]; [None] = no step of the run violates a selected clause.  The event lists range
+   over ALL sequences of health checks, clock moves, timer-function runs (fresh and stale), control
+   loop ticks, operator commands and callback returns (ok / error, any outstanding callback, any
+   moment).  Guards are booleans evaluated along the same run ([run_ok]). *)
 From Coq Require Import NArith List.
-From Verif Require Import Model.Failover Model.FailoverSpec.
+From Verif Require Import Base.Check Model.Failover Model.FailoverSpec Proofs.FailoverProofs.
+Import ListNotations.
+Local Open Scope N_scope.
+
+(* the full statement, clause by clause *)
+Definition C14_clause (k : N) : Prop :=
+  forall c evs, monitor (only k) c (init c) (sinit c) evs = None.
+Definition C14_statement : Prop :=
+  C14_clause 0 /\ C14_clause 1 /\ C14_clause 2 /\ C14_clause 3 /\ C14_clause 4 /\ C14_clause 5.
+
+(* (0) the reported role changes only at a step where a role-change callback returned nil, and
+   becomes that callback's newRole — full, stale timers and overlapping executions included *)
+Theorem C14_role_changes_only_after_callback_ok : C14_clause 0.
+Proof. exact mon_role_changes_only_after_callback_ok. Qed.
+Print Assumptions C14_role_changes_only_after_callback_ok.
+
+(* the same fact without the monitor, from ANY controller state *)
+Theorem C14_role_change_needs_callback_ok : forall c s e,
+  role_ (nxt c s e) <> role_ s ->
+  exists i x, e = CbReturn i true /\ nth_error (inflight s) (N.to_nat i) = Some x /\
+              role_ (nxt c s e) = snd (xabs c x).
+Proof. exact role_change_needs_callback_ok. Qed.
+Print Assumptions C14_role_change_needs_callback_ok.
+
+(* (1) a failback execution starts only while the partner is reported healthy — full *)
+Theorem C14_failback_only_if_partner_healthy : C14_clause 1.
+Proof. exact mon_failback_only_if_partner_healthy. Qed.
+Print Assumptions C14_failback_only_if_partner_healthy.
+
+(* (5) ... but it COMPLETES regardless of a partner failure reported during its grace period /
+   callback (the event is ignored in state failback_pending): refuted without any stale timer;
+   holds when no failure is reported while a failback callback is outstanding.  Known finding K14d *)
+Theorem C14_failback_completes_healthy_refuted : ~ C14_clause 5.
+Proof.
+  intros H. destruct failback_completes_healthy_refuted as (c & evs & _ & E).
+  rewrite (H c evs) in E. discriminate.
+Qed.
+Print Assumptions C14_failback_completes_healthy_refuted.
+
+Theorem C14_failback_completes_healthy_partial : forall c evs,
+  run_ok quiet_fb c (init c) evs = true -> monitor (only 5) c (init c) (sinit c) evs = None.
+Proof. exact mon_failback_completes_healthy_partial. Qed.
+Print Assumptions C14_failback_completes_healthy_partial.
+
+(* (2) a timer-started failover execution starts only if the partner has been reported down without
+   interruption for the configured delay (so a recovery before that cancels the promotion):
+   full in the timer-atomic semantics (no stale timer function runs) ... *)
+Theorem C14_promotion_requires_sustained_down_partial : forall c evs,
+  run_ok not_stale c (init c) evs = true -> monitor (only 2) c (init c) (sinit c) evs = None.
+Proof. exact mon_sustained_down_partial. Qed.
+Print Assumptions C14_promotion_requires_sustained_down_partial.
+
+(* ... refuted when a timer that was already due when handleHealthEvent stopped it runs afterwards:
+   Down, Advance delay, Up, Down, StaleFO promotes with the partner down for 0 s.  Known finding K14b *)
+Theorem C14_promotion_requires_sustained_down_refuted : ~ C14_clause 2.
+Proof.
+  intros H. destruct sustained_down_refuted as (c & evs & E). rewrite (H c evs) in E. discriminate.
+Qed.
+Print Assumptions C14_promotion_requires_sustained_down_refuted.
+
+(* (3) exactly one "completed" event per promotion (and none without one): holds while at most one
+   role-change callback is outstanding at a time ... *)
+Theorem C14_one_completed_event_per_promotion_partial : forall c evs,
+  run_ok (serial_step c) c (init c) evs = true -> monitor (only 3) c (init c) (sinit c) evs = None.
+Proof. exact mon_one_completed_partial. Qed.
+Print Assumptions C14_one_completed_event_per_promotion_partial.
+
+(* ... refuted otherwise: by a stale timer function running beside the fresh one, and — without any
+   stale timer — by executions that overlap because callbacks stay outstanding.  Known finding K14c *)
+Theorem C14_one_completed_event_per_promotion_refuted : ~ C14_clause 3.
+Proof.
+  intros H. destruct one_completed_refuted_stale as (c & evs & E). rewrite (H c evs) in E. discriminate.
+Qed.
+Print Assumptions C14_one_completed_event_per_promotion_refuted.
+
+Theorem C14_one_completed_event_refuted_without_stale_timers : exists c evs,
+  run_ok not_stale c (init c) evs = true /\ monitor (only 3) c (init c) (sinit c) evs = Some 3.
+Proof. exact one_completed_refuted_atomic. Qed.
+Print Assumptions C14_one_completed_event_refuted_without_stale_timers.
+
+(* (4) never stuck: in_progress => a failover execution is outstanding; pending => its timer is
+   pending; failback_pending => its timer is pending or a failback execution is outstanding.
+   Full (after the fix of ForceFailover, /repo 7b78a27; before it ForceFO alone refuted it) *)
+Theorem C14_never_stuck_in_progress : C14_clause 4.
+Proof. exact mon_never_stuck. Qed.
+Print Assumptions C14_never_stuck_in_progress.
+
+Theorem C14_in_progress_has_execution : forall c evs,
+  st (run c (init c) evs) = InProgress ->
+  exists x, In x (inflight (run c (init c) evs)) /\ x_kind x = FO.
+Proof. exact in_progress_has_execution. Qed.
+Print Assumptions C14_in_progress_has_execution.
+
+(* all clauses together, as the harness runs the monitor: inside the three guards the complete
+   monitor never rejects the Model; hence a rejection of an implementation trace inside the guards
+   is never explained by the Model *)
+Theorem C14_all_clauses_partial : forall c evs,
+  run_ok (all_guards c) c (init c) evs = true ->
+  monitor (fun _ => true) c (init c) (sinit c) evs = None.
+Proof. exact mon_all_partial. Qed.
+Print Assumptions C14_all_clauses_partial.
+
+(* the same in terms of Base/Check.v, which is what the case files evaluate *)
+Theorem C14_monitor_is_harness_check : forall m c evs s ss i,
+  monitor m c s ss evs = None ->
+  accept_trace (accept_m m c) i ss
+    (map (fun x => (fst (fst x), snd (fst x))) (model_trace (step c) s evs)) = (0, 0).
+Proof. exact monitor_is_check. Qed.
+Print Assumptions C14_monitor_is_harness_check.
+
+(* non-vacuity: a history inside all guards with a cancelled promotion, a promotion after the full
+   delay, a failback, a forced failover whose callback fails, and a second promotion *)
+Example C14_guards_satisfiable :
+  run_ok (all_guards cfg0) cfg0 (init cfg0) h_ok = true /\
+  role_ (run cfg0 (init cfg0) h_ok) = Active /\ n_comp (run cfg0 (init cfg0) h_ok) = 2 /\
+  n_fb (run cfg0 (init cfg0) h_ok) = 1 /\ n_canc (run cfg0 (init cfg0) h_ok) = 1.
+Proof. exact h_ok_guards. Qed.
